@@ -105,6 +105,11 @@ func NewFrom(from interface{}, opts ...Option) (*Config, error) {
 	if err := c.Merge(from, opts...); err != nil {
 		return nil, err
 	}
+
+	// The new configuration itself comes from where its settings come from:
+	// errors raised against it (a missing top-level setting) name the source
+	// like errors about its nested objects do.
+	c.metadata = makeOptions(opts).meta
 	return c, nil
 }
 
